@@ -718,7 +718,12 @@ class Parser:
             return value
         if not self._current_token.is_a(TokenTypes.NAME):
             return None
-        macro = self._context.get_macro(str(self._current_token))
+        name = str(self._current_token)
+        if self._context.has_symbol_typed(name, SymbolType.VAR):
+            # A parameter or local variable of the routine being compiled
+            # hides a macro of the same name.
+            return None
+        macro = self._context.get_macro(name)
         return None if macro.undefined else macro.value
 
     def _current_int(self):
